@@ -905,6 +905,61 @@ def depol_k_suite(ctx):
 # ---------------------------------------------------------------------------
 
 
+def reuse_suite(ctx, insts):
+    """one channel OBJECT used in several circuits / registers of different sizes (and added to
+    two circuits): every execution must be the channel's map on that register — state kept on
+    the object at first use (cached closed forms, cached embeddings) must not leak."""
+    from qibo import Circuit, gates  # noqa: F401
+
+    nb = qgates.np_backend() if "qgates" in globals() else None
+    from qibo.backends import NumpyBackend
+
+    nb = nb or NumpyBackend()
+    rng = ctx.rng
+    seen, bad = set(), 0
+    for cls, reg, expr, n, _ in insts:
+        if (cls, reg) in seen and rng.random() < 0.9:
+            continue
+        seen.add((cls, reg))
+        try:
+            ch = eval(expr, {"gates": gates, "np": np})
+        except Exception:  # noqa: BLE001
+            continue
+        qmax = max(ch.target_qubits)
+        sizes = [qmax + 1, qmax + 3, qmax + 2, qmax + 1]
+        rng.shuffle(sizes)
+        ok, where = True, None
+        for m in sizes:
+            d = 2**m
+            a = np.array([[complex(rng.gauss(0, 1), rng.gauss(0, 1)) for _ in range(d)] for _ in range(d)])
+            rho = a @ a.conj().T
+            rho /= np.trace(rho)
+            c = Circuit(m, density_matrix=True)
+            c.add(ch)
+            fresh = eval(expr, {"gates": gates, "np": np})
+            c2 = Circuit(m, density_matrix=True)
+            c2.add(fresh)
+            try:
+                out = np.asarray(nb.execute_circuit(c, initial_state=rho.copy()).state())
+                ref = np.asarray(nb.execute_circuit(c2, initial_state=rho.copy()).state())
+            except Exception as e:  # noqa: BLE001
+                ok, where = False, f"n={m}: raises {type(e).__name__}: {e}"
+                break
+            if not np.allclose(out, ref, atol=1e-9) or abs(np.trace(out) - 1) > 1e-9:
+                ok, where = False, f"n={m} (sizes used in this order: {sizes})"
+                break
+        ctx.case(("reuse", cls, reg, tuple(sizes)))
+        if not ok:
+            bad += 1
+            py = ("import numpy as np\nfrom qibo import Circuit, gates\n" + f"ch = {expr}\nrng = np.random.default_rng(0)\n"
+                  + f"for m in {sizes}:\n    d = 2**m; a = rng.normal(size=(d, d)) + 1j * rng.normal(size=(d, d)); rho = a @ a.conj().T; rho /= np.trace(rho)\n"
+                  + f"    c = Circuit(m, density_matrix=True); c.add(ch)\n    f = Circuit(m, density_matrix=True); f.add({expr})\n"
+                  + "    assert np.allclose(c(rho.copy()).state(), f(rho.copy()).state(), atol=1e-9), m\n")
+            ctx.fail(f"reuse:{cls}{':' + reg if reg else ''}", f"the same {cls} object executed in registers of different sizes differs from a fresh channel at {where}",
+                     py, broken=["C04_search_reuse"])
+    ctx.ob("C04_search_reuse", bad == 0, "search", f"{bad} channel objects behave differently when reused" if bad else "")
+
+
 def run(ctx):
     MODULES, THEOREMS = registry(PROP)
     ctx.theorems = THEOREMS
@@ -917,6 +972,7 @@ def run(ctx):
     user_suite(ctx, users)
     views_suite(ctx, insts, users)
     query_suite(ctx, insts, users)
+    reuse_suite(ctx, insts)
     ctx.assumptions += [
         "complete positivity is structural in the model (non-negative combination of K rho K^dagger); on the real code it is checked numerically (Choi matrix of the executed map PSD)",
         "depolarizing fast path = Pauli-twirl Kraus map is proved for every k and every ordered duplicate-free tuple (T04_depolarizing_fast_eq_kraus_full_proved); both sides are tied exactly to the real code for k<=3 on every ordered tuple of n<=4 (C04_corr_depol_k)",
